@@ -7,6 +7,16 @@ const char* vh_property = "C14";
 
 struct fam { const char* alpha; int k; int L; int protein; int ntypes; };
 static const struct fam FQ[] = {{"ACT", 2, 3, 0, 4}, {"ACT", 3, 2, 0, 4}, {"LKBU", 2, 3, 1, 3}, {"LKZX", 3, 2, 1, 1}};
+/* letter-pair block: for every ordered pair (x, y) of letters of the kind's alphabet the set {xxyx, xyx}, so that every letter occurs
+   and dominates some input (nucleotide: A C G T N; protein: the 20 amino acids and B Z X U); default type and every type of the kind.
+   two-file block: {ACGTA, CG?TA / C?GTA} with one IUPAC ambiguity code or N in the second sequence, each sequence in a file of its own,
+   read into one msa with two kalign_read_input calls (the kind is then decided twice: per file and on the merged counts) */
+static const char LNUC[] = "ACGTN";
+static const char LPRO[] = "ACDEFGHIKLMNPQRSTVWYBZXU";
+static const char IUPAC[] = "RYKMSWBDHVN";
+#define NPAIRN (5 * 5 * 4)
+#define NPAIRP (24 * 24 * 3)
+#define NTWOFILE (11 * 2)
 static const struct fam FT[] = {{"ACT", 2, 4, 0, 2}, {"ACGT", 2, 3, 0, 4}, {"ACT", 3, 3, 0, 1}, {"ACT", 4, 2, 0, 1}, {"LKBU", 2, 4, 1, 1}, {"LKZX", 3, 2, 1, 3}, {"LKBUZX", 2, 3, 1, 3}};
 static const int DT[] = {KALIGN_TYPE_UNDEFINED, KALIGN_TYPE_DNA, KALIGN_TYPE_DNA_INTERNAL, KALIGN_TYPE_RNA};
 static const int PT[] = {KALIGN_TYPE_UNDEFINED, KALIGN_TYPE_PROTEIN, KALIGN_TYPE_PROTEIN_DIVERGENT};
@@ -32,15 +42,16 @@ uint64_t vh_total(int tier)
         for(i = 0; i < n; i++){
                 t += fsize(&F[i]);
         }
-        return t;
+        return t + NPAIRN + NPAIRP + NTWOFILE;
 }
 
-struct bcase { char s[5][8]; int k; int type; int protein; };
+struct bcase { char s[5][8]; int k; int type; int protein; int twofile; };
 
 static void decode(uint64_t id, int tier, struct bcase* c)
 {
         int n, i, j;
         const struct fam* F = fams(tier, &n);
+        c->twofile = 0;
         for(i = 0; i < n; i++){
                 uint64_t sz = fsize(&F[i]);
                 if(id < sz){
@@ -57,6 +68,38 @@ static void decode(uint64_t id, int tier, struct bcase* c)
                 }
                 id -= sz;
         }
+        if(id < NPAIRN + NPAIRP){
+                int protein = id >= NPAIRN, nl, x, y;
+                const char* L;
+                if(protein){
+                        id -= NPAIRN;
+                        c->type = PT[id % 3];
+                        id /= 3;
+                }else{
+                        c->type = DT[id % 4];
+                        id /= 4;
+                }
+                L = protein ? LPRO : LNUC;
+                nl = (int)strlen(L);
+                x = (int)(id % (uint64_t)nl);
+                y = (int)(id / (uint64_t)nl);
+                c->protein = protein;
+                c->k = 2;
+                snprintf(c->s[0], 8, "%c%c%c%c", L[x], L[x], L[y], L[x]);
+                snprintf(c->s[1], 8, "%c%c%c", L[x], L[y], L[x]);
+                return;
+        }
+        id -= NPAIRN + NPAIRP;
+        c->twofile = 1;
+        c->protein = 0;
+        c->type = KALIGN_TYPE_UNDEFINED;
+        c->k = 2;
+        snprintf(c->s[0], 8, "ACGTA");
+        if(id % 2){
+                snprintf(c->s[1], 8, "C%cGTA", IUPAC[id / 2]);
+        }else{
+                snprintf(c->s[1], 8, "CG%cTA", IUPAC[id / 2]);
+        }
 }
 
 void vh_describe(uint64_t id, int tier, char* buf, size_t n)
@@ -65,7 +108,7 @@ void vh_describe(uint64_t id, int tier, char* buf, size_t n)
         size_t o;
         int j;
         decode(id, tier, &c);
-        o = (size_t)snprintf(buf, n, "base set (all case patterns%s) type=%s:", c.protein ? "" : " x all T/U patterns", kx_type_name(c.type));
+        o = (size_t)snprintf(buf, n, "base set (all case patterns%s)%s type=%s:", c.protein ? "" : " x all T/U patterns", c.twofile ? " each sequence in a file of its own" : "", kx_type_name(c.type));
         for(j = 0; j < c.k; j++){
                 o += (size_t)snprintf(buf + o, n - o, " \"%s\"", c.s[j]);
         }
@@ -80,6 +123,33 @@ static int run(struct bcase* c, char v[5][8], char*** rows, int* alen)
                 len[j] = (int)strlen(v[j]);
         }
         vh_count("library_calls");
+        if(c->twofile){
+                struct msa* m = NULL;
+                int rc = OK;
+                *rows = NULL;
+                for(j = 0; j < c->k && rc == OK; j++){
+                        char txt[64];
+                        const char* path = vh_tmp(j ? "c14b.fa" : "c14a.fa");
+                        size_t o = (size_t)snprintf(txt, sizeof txt, ">s%d\n%s\n", j, v[j]);
+                        vh_write_file(path, txt, o);
+                        rc = kalign_read_input((char*)path, &m, 1);
+                }
+                if(rc == OK && m){
+                        rc = kalign_run(m, 1, c->type, -1.0f, -1.0f, -1.0f);
+                }else{
+                        rc = FAIL;
+                }
+                if(rc == OK){
+                        char** names;
+                        kx_msa_rows(m, rows, &names);
+                        kx_free_rows(names, m->numseq);
+                        *alen = m->alnlen;
+                }
+                if(m){
+                        kalign_free_msa(m);
+                }
+                return rc;
+        }
         return kalign(seq, len, c->k, 1, c->type, -1.0f, -1.0f, -1.0f, rows, alen);
 }
 
